@@ -76,7 +76,9 @@ impl<H: Hal, const SIZE: usize, const BUFFER_SIZE: usize> OwningQueue<H, SIZE, B
         Ok(())
     }
 
-    fn pop(&mut self) -> Result<Option<(&[u8], u16)>> {
+    /// Pops the next used buffer, if any, and returns its token and the length which the device
+    /// claims to have written to it.
+    fn pop(&mut self) -> Result<Option<(usize, u16)>> {
         let Some(token) = self.queue.peek_used() else {
             return Ok(None);
         };
@@ -96,13 +98,7 @@ impl<H: Hal, const SIZE: usize, const BUFFER_SIZE: usize> OwningQueue<H, SIZE, B
             .try_into()
             .unwrap();
 
-        // The device reports how many bytes it wrote; reject if it claims more than the buffer
-        // size.
-        if len > BUFFER_SIZE {
-            return Err(Error::IoError);
-        }
-
-        Ok(Some((&buffer[0..len], token)))
+        Ok(Some((len, token)))
     }
 
     /// Checks whether there are any buffers which the device has marked as used so the driver
@@ -120,11 +116,21 @@ impl<H: Hal, const SIZE: usize, const BUFFER_SIZE: usize> OwningQueue<H, SIZE, B
         transport: &mut impl Transport,
         handler: impl FnOnce(&[u8]) -> Result<Option<T>>,
     ) -> Result<Option<T>> {
-        let Some((buffer, token)) = self.pop()? else {
+        let Some((len, token)) = self.pop()? else {
             return Ok(None);
         };
 
-        let result = handler(buffer);
+        // The device reports how many bytes it wrote; reject if it claims more than the buffer
+        // size. The buffer is still added back to the queue below, so that every buffer is always
+        // either in the queue or being handled here.
+        let result = if len > BUFFER_SIZE {
+            Err(Error::IoError)
+        } else {
+            // SAFETY: The buffer was just popped from the queue so the device is no longer using it,
+            // and `pop` has checked that `token` is a valid index.
+            let buffer = unsafe { self.buffers[usize::from(token)].as_ref() };
+            handler(&buffer[0..len])
+        };
 
         // SAFETY: The buffer was just popped from the queue so it's not in it, and there won't be
         // any other references until next time it's popped.
